@@ -18,19 +18,79 @@
 (* wrapper -> Python.  Each hop has the callee's view and the caller's view   *)
 (* of the function type (they differ for calls through a function pointer).   *)
 (* Values are tags (strings); "any" = unspecified (struct without default).   *)
+(* Typed numeric layer (WTypes): the C integer types of every width and       *)
+(* signedness and `float`.  A body / clause literal is converted to the return *)
+(* type (ConvT: wrap-around modulo 2^bits, rounding to float); the caller's    *)
+(* test is the C expression `ret == (T)v`, evaluated with the integer          *)
+(* promotions and usual arithmetic conversions (EqC).  SentCast = "rtype" is   *)
+(* the design (the sentinel is converted to the return type before the test);  *)
+(* "none" compares with the bare literal and exists only to show that the      *)
+(* invariants notice the difference (ExcSpec_nocast.cfg must be violated).     *)
 EXTENDS Integers, Sequences, TLC, Json, FiniteSets
 
 CONSTANTS Kinds,       \* subset of {"cdef", "cpdef", "meth", "cpmeth"}
           CrossPtr,    \* TRUE: pointer types with every specification (assignability study)
           Legacy,      \* subset of BOOLEAN: directive legacy_implicit_noexcept (only for cdef functions / methods)
+          WTypes,      \* typed numeric return types (subset of DOMAIN IntInfo \ {"int"}, plus "float")
+          WKinds,      \* kinds that are combined with WTypes
+          SentCast,    \* "rtype" | "none": type the caller's test gives the sentinel (see above)
           Dump
 
 Specs  == {"exc_v", "exc_q", "exc_star", "noexc", "dflt"}
-RTypes == {"int", "double", "ptr", "struct", "void", "object"}
+BaseRT == {"int", "double", "ptr", "struct", "void", "object"}
+RTypes == BaseRT \cup WTypes
+
+\* ---- typed numeric layer.  A value of an integer type is written as the decimal string of its
+\* representative: the mathematical value for the types narrower than int, the two's-complement
+\* signed representative for the 32/64-bit types (TLC integers are 32-bit; "-1" of an unsigned
+\* 64-bit type stands for 2^64-1).
+IntInfo == [schar  |-> [bits |-> 8,  sg |-> TRUE],  uchar  |-> [bits |-> 8,  sg |-> FALSE],
+            short  |-> [bits |-> 16, sg |-> TRUE],  ushort |-> [bits |-> 16, sg |-> FALSE],
+            int    |-> [bits |-> 32, sg |-> TRUE],  uint   |-> [bits |-> 32, sg |-> FALSE],
+            long   |-> [bits |-> 64, sg |-> TRUE],  ulong  |-> [bits |-> 64, sg |-> FALSE],
+            llong  |-> [bits |-> 64, sg |-> TRUE],  ullong |-> [bits |-> 64, sg |-> FALSE],
+            ssize_t |-> [bits |-> 64, sg |-> TRUE], size_t |-> [bits |-> 64, sg |-> FALSE]]
+IsInt(rt) == rt \in DOMAIN IntInfo
+IsFlt(rt) == rt \in {"double", "float"}
+Narrow(rt) == IsInt(rt) /\ IntInfo[rt].bits < 32
+Lits == {-32768, -128, -1, 0, 5, 7, 127, 255, 32767, 65535}
+Num(s) == CHOOSE n \in Lits : ToString(n) = s
+\* conversion of the integer n to the type t (C 6.3.1.3; modulo 2^bits, two's complement for the signed types)
+Rep(t, n) == IF ~Narrow(t) THEN n
+             ELSE LET m == IF IntInfo[t].bits = 8 THEN 256 ELSE 65536
+                      r == n % m
+                  IN IF IntInfo[t].sg /\ r >= m \div 2 THEN r - m ELSE r
+\* the value a literal has once it is converted to the type rt (return statement, error return, cast)
+ConvT(rt, tag) == IF IsInt(rt) THEN ToString(Rep(rt, Num(tag)))
+                  ELSE IF rt = "float" /\ tag = "0.1" THEN "0.1f"      \* nearest float, # 0.1 as a double
+                  ELSE tag
+\* C `a == b` for a of type ta, b of type tb: integer promotions, then the usual arithmetic conversions.
+\* With representatives the converted operands are equal iff the representatives are, except that a
+\* negative representative of an unsigned type that is widened stands for a value >= 2^31 of the wider type.
+Promo(t) == IF Narrow(t) THEN "int" ELSE t
+Widened(t, r, bc) == ~IntInfo[t].sg /\ IntInfo[t].bits < bc /\ r < 0
+EqC(ta, a, tb, b) ==
+  LET pa == Promo(ta) pb == Promo(tb)
+      bc == IF IntInfo[pa].bits >= IntInfo[pb].bits THEN IntInfo[pa].bits ELSE IntInfo[pb].bits
+      \* operand after conversion to the common type (same width: the representative is kept, also int -> unsigned)
+  IN ~Widened(pa, a, bc) /\ ~Widened(pb, b, bc) /\ a = b
+\* the type the caller's test gives the declared value v of a function returning rt
+SentType(rt) == IF SentCast = "rtype" THEN rt ELSE IF IsInt(rt) THEN "int" ELSE IF IsFlt(rt) THEN "double" ELSE rt
+\* result r (of type rt) == declared value v, as evaluated by the caller
+SameAsSentinel(rt, r, v) ==
+  IF IsInt(rt) /\ r \notin {"unset", "NULLOBJ"}
+    THEN EqC(rt, Num(r), SentType(rt), Rep(SentType(rt), Num(v)))
+    ELSE r = ConvT(SentType(rt), v)            \* floats: NaN-aware comparison of the macro = equality of tags
 Ctxs   == {"def", "cdef", "nogil", "fptr", "py"}
 
+\* boundary literals of the narrow types
+Bounds(rt) == CASE rt = "uchar" -> {"255"} [] rt = "ushort" -> {"65535"}
+                [] rt = "schar" -> {"-128", "127"} [] rt = "short" -> {"-32768", "32767"} [] OTHER -> {}
+\* literals returned by the bodies (source level: `return -1` in an unsigned function returns the maximum)
 Vals(rt) == CASE rt = "int"    -> {"-1", "0", "5", "7"}
               [] rt = "double" -> {"-1.0", "0.0", "2.5", "nan"}
+              [] rt = "float"  -> {"-1.0", "0.0", "2.5", "nan", "0.1"}
+              [] IsInt(rt) /\ rt # "int" -> {"-1", "0", "5"} \cup Bounds(rt)
               [] rt = "ptr"    -> {"NULL", "P"}
               [] rt = "struct" -> {"Z", "S"}
               [] rt = "void"   -> {"void"}
@@ -39,13 +99,15 @@ Vals(rt) == CASE rt = "int"    -> {"-1", "0", "5", "7"}
 \* with a value on void / struct / object: those combinations do not exist)
 Sentinels(rt) == CASE rt = "int"    -> {"-1", "0", "5"}
                    [] rt = "double" -> {"-1.0", "0.0", "nan"}
+                   [] rt = "float"  -> {"-1.0", "nan", "0.1"}
+                   [] IsInt(rt) /\ rt # "int" -> {"-1"} \cup (Bounds(rt) \ {"127", "32767"})
                    [] rt = "ptr"    -> {"NULL"}
                    [] OTHER         -> {}
 \* value when execution falls off the end / returned by a noexcept function that failed
-ZeroOf(rt) == CASE rt = "int" -> "0" [] rt = "double" -> "0.0" [] rt = "ptr" -> "NULL"
+ZeroOf(rt) == CASE IsInt(rt) -> "0" [] IsFlt(rt) -> "0.0" [] rt = "ptr" -> "NULL"
                 [] rt = "struct" -> "any" [] rt = "void" -> "void" [] rt = "object" -> "None"
 \* PyrexTypes: exception_value of CIntType / CFloatType / CPtrType
-DefExc(rt) == CASE rt = "int" -> "-1" [] rt = "double" -> "-1.0" [] rt = "ptr" -> "NULL" [] OTHER -> "none"
+DefExc(rt) == CASE IsInt(rt) -> "-1" [] IsFlt(rt) -> "-1.0" [] rt = "ptr" -> "NULL" [] OTHER -> "none"
 
 SvOf(spec, rt) == IF spec \in {"exc_v", "exc_q"} THEN Sentinels(rt) ELSE {"none"}
 
@@ -53,7 +115,7 @@ SvOf(spec, rt) == IF spec \in {"exc_v", "exc_q"} THEN Sentinels(rt) ELSE {"none"
 \*   a clause with a value on void / struct / object (Sentinels = {}); cpdef returning a pointer
 \*   (no Python conversion); direct Python calls of plain cdef functions; pointers to methods;
 \*   object results without the GIL.
-RTOf(kd)      == IF kd \in {"cpdef", "cpmeth"} THEN RTypes \ {"ptr"} ELSE RTypes
+RTOf(kd)      == (IF kd \in {"cpdef", "cpmeth"} THEN BaseRT \ {"ptr"} ELSE BaseRT) \cup (IF kd \in WKinds THEN WTypes ELSE {})
 CtxOf(kd, rt) == {x \in Ctxs : /\ x = "py" => kd \in {"cpdef", "cpmeth"}
                                /\ x = "fptr" => kd = "cdef"
                                /\ x = "nogil" => (kd \in {"cdef", "meth"} /\ rt # "object")}
@@ -61,7 +123,7 @@ Bodies(rt)    == {"raise", "fall"} \cup Vals(rt)
 LegacyOf(kd)  == IF kd \in {"cdef", "meth"} THEN Legacy ELSE Legacy \ {TRUE}
 PtrSpecs(rt)  == UNION {{<<ps, pv>> : pv \in SvOf(ps, rt)} : ps \in Specs}
 PtrOf(x, sp, sv, rt) == IF x # "fptr" THEN {<<"none", "none">>}
-                        ELSE IF CrossPtr THEN PtrSpecs(rt) ELSE {<<sp, sv>>}
+                        ELSE IF CrossPtr /\ rt \in BaseRT THEN PtrSpecs(rt) ELSE {<<sp, sv>>}
 Cases == UNION {UNION {UNION {UNION {UNION {
            {[kind |-> kd, spec |-> sp, rt |-> rt, sv |-> sv, body |-> b, ctx |-> x, pspec |-> p[1], psv |-> p[2], lg |-> lg] :
                b \in Bodies(rt), p \in PtrOf(x, sp, sv, rt), lg \in LegacyOf(kd)}
@@ -69,8 +131,9 @@ Cases == UNION {UNION {UNION {UNION {UNION {
 
 ---------------------------------------------------------------------------
 (* reference *)
-BodyVal(c) == IF c.body = "fall" THEN ZeroOf(c.rt) ELSE c.body
-Misuse(c) == c.spec = "exc_v" /\ c.body # "raise" /\ BodyVal(c) = c.sv
+\* the value of the return type that the body returns / that the clause declares
+BodyVal(c) == IF c.body = "fall" THEN ZeroOf(c.rt) ELSE ConvT(c.rt, c.body)
+Misuse(c) == c.spec = "exc_v" /\ c.body # "raise" /\ BodyVal(c) = ConvT(c.rt, c.sv)
 \* "legacy_implicit_noexcept: the function will behave in the same way as if declared with noexcept"
 Declared(c) == IF c.lg /\ c.spec = "dflt" THEN "noexc" ELSE c.spec
 Ref(c) ==
@@ -122,7 +185,8 @@ CalleeExit ==
        IF ~inerr THEN UNCHANGED <<ret, err, hooks, hazard>>
        ELSE IF e.obj \/ e.ev # "none" \/ e.ec
          THEN \* caller_will_check_exceptions: __Pyx_AddTraceback, return the error value
-              /\ ret' = IF e.ev # "none" THEN e.ev ELSE ZeroOf(c.rt)
+              /\ ret' = IF e.ev \notin {"none", "NULLOBJ"} THEN ConvT(c.rt, e.ev)     \* `return v`: converted to the return type
+                        ELSE IF e.ev = "NULLOBJ" THEN e.ev ELSE ZeroOf(c.rt)
               /\ hazard' = (hazard \/ err = "none")     \* traceback without a current exception: undefined
               /\ UNCHANGED <<err, hooks>>
          ELSE \* __Pyx_WriteUnraisable: report, clear, default value
@@ -132,7 +196,7 @@ CalleeExit ==
   /\ UNCHANGED <<c, h, inerr, out>>
 
 Fires(e, r, er) == IF e.obj THEN r = "NULLOBJ"
-                   ELSE IF e.ev # "none" THEN r = e.ev /\ (e.ec => er # "none")
+                   ELSE IF e.ev # "none" THEN SameAsSentinel(c.rt, r, e.ev) /\ (e.ec => er # "none")
                    ELSE e.ec /\ er # "none"
 
 \* the caller of hop h tests the result
